@@ -11,6 +11,7 @@ def dispatch (mode : String) : Option (List String → Verdict) :=
   | "C10" => some SockModel.Drive.C10.runCase
   | "C02" => some SockModel.Drive.C02.runCase
   | "C09" => some SockModel.Drive.C09.runCase
+  | "C03" => some SockModel.Drive.C03.runCase
   | "C06" => some SockModel.Drive.C06.runCase
   | "C06legacy" => some SockModel.Drive.C06.runCaseLegacy
   | _ => none
